@@ -206,7 +206,7 @@ def run(ck):
             ops.append('Exit')
 
     for k in range(ck.n(150, 1500)):
-        init = rng.choice([None, '3', '7', '11'])
+        init = rng.choice([None, '3', '7', '11', ''])          # defined-but-empty is a value like any other (encoded as 0 in the Coq event model)
         if init is None:
             os.environ.pop(VAR, None)
         else:
@@ -224,7 +224,7 @@ def run(ck):
             ck.violation(f'with_env_var left the variable at {final!r}, it was {init!r} before (events {ops})', dict(init=init, ops=ops, final=final), key='env-restore')
         if any(o != '7' for o in obs):
             ck.violation(f'inside a wrapped body the variable read {obs}', dict(init=init, ops=ops), key='env-inside')
-        cq = lambda v: 'None' if v is None else f'(Some {int(v)})'
+        cq = lambda v: 'None' if v is None else f'(Some {int(v or 0)})'
         cases.append((k, f"env_case 7 {coq_list(ops)} {cq(init)} {cq(final)} {coq_list([cq(o) for o in obs])}"))
     res = ck.run_bool_cases('env', HEADER, cases, shard=500)
     bad = [k for k, v in res.items() if v is not True]
@@ -257,7 +257,7 @@ def run(ck):
         args = [conv(X), conv(y), conv(Xv), conv(yv)]
         Q = conv(xr.make_X('random', 9, d, nr))
         desc = dict(i=i, kernel=kern, task=task, tensors=as_tensor, n_threads=n_threads, soft=soft, n=n, L=L, split_method=(None if i % 3 == 0 else ['pca', 'random_pca', 'linear', 'rf_criterion', 'random_agop_on_subset', 'top_pc_agop_on_subset'][(i // 3) % 6]), seed=ck.seed)
-        init_env = [None, 'max_split_size_mb:64'][i % 2]
+        init_env = [None, 'max_split_size_mb:64', ''][i % 3]          # absent / set / defined but empty (`export VAR=` in a job script)
         if init_env is None:
             os.environ.pop(ENV, None)
         else:
